@@ -304,9 +304,26 @@ let op_expr (args : str list) : str list =
                         (List.filter (fun (t : token) -> kind_name t.t_kind <> "Whitespace") toks)) ]
   | _ -> ["bad-args"]
 
+(* symbol-table walk: events separated by blanks: E (enter) X (exit) A:name U:pos:name -> ok | bad pos name *)
+let op_scope (args : str list) : str list =
+  match args with
+  | [l] ->
+      let evs = List.filter_map (fun w ->
+        if w = "" || w = "-" then None else
+        match S.split_on_char ':' w with
+        | ["E"] -> Some EvEnter
+        | ["X"] -> Some EvExit
+        | ["A"; nm] -> Some (EvAdd (text_of_str nm))
+        | ["U"; ps; nm] -> Some (EvUse (text_of_str nm, n_of_int (int_of_string ps)))
+        | _ -> failwith "bad event") (S.split_on_char ' ' l) in
+      (match rule_symbolic evs with
+       | None -> ["ok"]
+       | Some (ps, nm) -> ["bad"; string_of_int (int_of_n ps); str_of_text nm])
+  | _ -> ["bad-args"]
+
 let ops : (str * (str list -> str list)) list ref =
   ref [ ("lex", op_lex); ("semtok", op_semtok); ("decode", op_decode); ("lit", op_lit); ("cycle", op_cycle);
-        ("lsp", op_lsp); ("cli", op_cli); ("rule", op_rule); ("expr", op_expr) ]
+        ("lsp", op_lsp); ("cli", op_cli); ("rule", op_rule); ("expr", op_expr); ("scope", op_scope) ]
 
 
 let () =
